@@ -374,7 +374,7 @@ SCHEMES = {
 def graph_cfg(c, binding, scheme, ns):
     m = SCHEMES[(binding, scheme)]
     ks = [c['k1'], c['k2'], c['k3'], c['k4']]
-    ds = [c['d1'], c['d2'], c['d3'], c['d4']]
+    ds = [c['d%d' % (i + 1)] + ([c['xv']] if c['xs'] == i + 1 else []) for i in range(4)]
     cfg = {'vars': [], 'heads': [], 'occ': [], 'ns': ns}
     for i in range(c['n']):
         cfg['vars'].append({'n': m[SYMS[i]], 'k': ks[i], 'deps': sorted(m[d] for d in ds[i]),
